@@ -49,6 +49,9 @@ class ConnectInd(AdvertisingPdu):
 class AdvInd(AdvertisingPdu):
     advertiser_address: hci.Address
     data: bytes
+    # There is no SCAN_REQ / SCAN_RSP exchange on the virtual link: the advertiser's
+    # scan response data travels with the advertising data.
+    scan_response_data: bytes = b''
 
 
 @dataclasses.dataclass
@@ -71,6 +74,7 @@ class AdvExtInd(AdvertisingPdu):
     target_address: hci.Address | None = None
     adi: int | None = None
     tx_power: int | None = None
+    scan_response_data: bytes = b''
 
 
 # -----------------------------------------------------------------------------
